@@ -12,16 +12,16 @@
 (* pending send (QAccept) until its own quit is closed (QQuit).            *)
 (*                                                                         *)
 (* ONE ACTION PER ARM of manageNewItems' select (batch_writer.go):         *)
-(*   WTake   :113 `<-queue.ChanOut()`: append; :123 batch full ->          *)
-(*           ticker.Stop, writeBatch; :131 otherwise ticker.Reset          *)
-(*   WTick   :134 `<-ticker.C`: ticker.Stop, writeBatch                    *)
-(*   WQuit   :141 `<-quit`: writeBatch, return                             *)
-(* writeBatch (:92-105) calls PutItems when the batch is not empty, logs   *)
+(*   WTake   :115 `<-queue.ChanOut()`: append; :125 batch full ->          *)
+(*           ticker.Stop, writeBatch; :133 otherwise ticker.Reset          *)
+(*   WTick   :136 `<-ticker.C`: ticker.Stop, writeBatch                    *)
+(*   WQuit   :143 `<-quit`: writeBatch, return                             *)
+(* writeBatch (:91-104) calls PutItems when the batch is not empty, logs   *)
 (* an error and EMPTIES THE BATCH either way.                              *)
 (* Stop (:63-70) is three steps: close(quit) / wg.Wait() for the writer    *)
 (* (StopWaitWriter) / queue.Stop() (close of the queue's quit, wait for    *)
 (* its goroutine: StopWaitQueue).                                          *)
-(* The ticker: `armed` = it runs (Reset :131 after a take that does not    *)
+(* The ticker: `armed` = it runs (Reset :133 after a take that does not    *)
 (* fill the batch), `due` = a tick is waiting in ticker.C.  The clock only *)
 (* moves when the environment says Tick (one full period).                 *)
 (***************************************************************************)
@@ -56,13 +56,13 @@ Fin(a) ==
   /\ abs' = AbsNext(abs, a, Obs')
   /\ viol' = Viol(abs, Obs, a, abs', Obs')
 
-\* writeBatch :92-105
+\* writeBatch :91-104
 WriteBatch(b) ==
   IF b = <<>> THEN UNCHANGED <<put, oks>>
   ELSE /\ put' = Append(put, b) /\ oks' = Append(oks, 1 - failing)
 
 \* ---- the environment ---------------------------------------------------------
-Start ==                                            \* :52-60
+Start ==                                            \* :53-60
   /\ wgor = "new" /\ stop = 0
   /\ qgor' = "loop" /\ wgor' = "loop"
   /\ UNCHANGED <<pend, nadd, q, batch, armed, due, put, oks, failing, quitc, qquitc, stop, nticks, ntog>>
@@ -112,22 +112,22 @@ WTake ==
   /\ q' = Tail(q)
   /\ LET b2 == Append(batch, Head(q)) IN
      IF Len(b2) = maxb
-     THEN /\ WriteBatch(b2) /\ batch' = <<>> /\ armed' = 0 /\ due' = 0       \* :123-126
-     ELSE /\ batch' = b2 /\ armed' = 1 /\ due' = 0 /\ UNCHANGED <<put, oks>>  \* :131 Reset restarts the period
+     THEN /\ WriteBatch(b2) /\ batch' = <<>> /\ armed' = 0 /\ due' = 0       \* :125-127
+     ELSE /\ batch' = b2 /\ armed' = 1 /\ due' = 0 /\ UNCHANGED <<put, oks>>  \* :133 Reset restarts the period
   /\ UNCHANGED <<qgor, wgor, pend, nadd, failing, quitc, qquitc, stop, nticks, ntog>>
   /\ Fin(A("WTake", N, N, N, N))
 
 WTick ==
   /\ wgor = "loop" /\ due = 1
-  /\ armed' = 0 /\ due' = 0                                                  \* :138 ticker.Stop
-  /\ WriteBatch(batch) /\ batch' = <<>>                                      \* :139
+  /\ armed' = 0 /\ due' = 0                                                  \* :140 ticker.Stop
+  /\ WriteBatch(batch) /\ batch' = <<>>                                      \* :141
   /\ UNCHANGED <<qgor, wgor, pend, nadd, q, failing, quitc, qquitc, stop, nticks, ntog>>
   /\ Fin(A("WTick", N, N, N, N))
 
 WQuit ==
   /\ wgor = "loop" /\ quitc = 1
-  /\ WriteBatch(batch) /\ batch' = <<>>                                      \* :142
-  /\ wgor' = "quit" /\ armed' = 0 /\ due' = 0                                \* :109 deferred ticker.Stop
+  /\ WriteBatch(batch) /\ batch' = <<>>                                      \* :144
+  /\ wgor' = "quit" /\ armed' = 0 /\ due' = 0                                \* :107 deferred ticker.Stop
   /\ UNCHANGED <<qgor, pend, nadd, q, failing, quitc, qquitc, stop, nticks, ntog>>
   /\ Fin(A("WQuit", N, N, N, N))
 
